@@ -47,6 +47,9 @@ func opaqueElem(t types.Type) bool {
 		}
 		return false
 	}
+	if _, isPtr := t.Underlying().(*types.Pointer); isPtr {
+		return true // a map of pointers: which object a key refers to is not tracked
+	}
 	if _, isStruct := t.Underlying().(*types.Struct); !isStruct {
 		return false
 	}
